@@ -138,6 +138,9 @@ add('print_difficulties_distribution::{closure#1}', r'^total_difficulty\(', 'tra
 
 add('verify_total_difficulty', r'^U256\.sub\(end_total_difficulty, start_total_difficulty\)$', 'dominated by `if start_total_difficulty > end_total_difficulty { return Err }`', ['call:<U256 as PartialOrd>::gt'])
 add('verify_total_difficulty', r'^overflow\(\+\)\(EpochNumberWithFraction::index\(\.\.\), 1_u64\)$', 'EpochNumberWithFraction::index() is a 16-bit field of the packed epoch (<= 65535)')
+add('verify_mmr_proof', r'^SliceOp\(numbers, 2_usize\)$', 'windows(2): constant non-zero size (F30 fix: distinct-heights test)')
+add('verify_mmr_proof', r'^bounds\(0_usize, pair\.len\(\)\)$', 'pair is an element of windows(2): length exactly 2')
+add('verify_mmr_proof::{closure#2}', r'^bounds\([01]_usize, pair\.len\(\)\)$', 'pair is an element of windows(2): length exactly 2')
 add('check_continuous_headers', r'^SliceOp\(headers, 2_usize\)$', 'windows(2): constant non-zero size')
 add('check_continuous_headers', r'^bounds\([01]_usize, pair\.len\(\)\)$', 'pair is an element of windows(2): length exactly 2')
 add('verify_mmr_proof', r'^mmr_index\(index\)$', 'every header number was checked <= end_number <= MMR_LEAF_INDEX_MAX before the mapping closure runs', ['cmp:Gt(end_number, _)'])
